@@ -720,4 +720,10 @@ def rule_pure(ck):
     c03.rule_pure_gridding(ck)
 
 
-RULES = [rule_kernel, rule_tolerance, rule_tolerance_flow, rule_range, rule_callsites, rule_generators, rule_pure]
+def rule_own_magnitudes_shared(ck):
+    from . import c11
+    ck.clause('shared C11-D5: a forecast bins magnitudes with its own edges')
+    c11.rule_own_magnitudes(ck)
+
+
+RULES = [rule_kernel, rule_tolerance, rule_tolerance_flow, rule_range, rule_callsites, rule_generators, rule_pure, rule_own_magnitudes_shared]
